@@ -78,13 +78,14 @@ fn main() {
             let runs: u64 = arg_val(&args, "--runs").and_then(|s| s.parse().ok()).unwrap_or(20_000);
             let seed: u64 = arg_val(&args, "--seed").and_then(|s| s.parse().ok()).unwrap_or(1);
             let def = l2::scen_by_name(&name).expect("unknown scenario");
+            let first_run: u64 = arg_val(&args, "--first-run").and_then(|s| s.parse().ok()).unwrap_or(0);
             let t0 = Instant::now();
             let mut nfail = 0;
             let mut stats = core::Stats::default();
             let mut steps = 0u64;
             let mut simt = 0u64;
             let mut nontrivial = std::collections::HashSet::new();
-            for r in 0..runs {
+            for r in first_run..first_run + runs {
                 let mut rng = rng::Rng::for_run(seed, def.name, r);
                 let mut cfg = (def.draw_cfg)(&mut rng);
                 for (i, a) in args.iter().enumerate() {
@@ -165,6 +166,31 @@ fn main() {
             let world = arg_val(&args, "--world").unwrap_or("mutex".into());
             let seed: u64 = arg_val(&args, "--seed").and_then(|s| s.parse().ok()).unwrap_or(1);
             let run: u64 = arg_val(&args, "--run").and_then(|s| s.parse().ok()).unwrap_or(0);
+            if let Some(scen) = arg_val(&args, "--scen") {
+                // the choice tape of one L2 run
+                let def = l2::scen_by_name(&scen).expect("unknown scenario");
+                let mut rng = rng::Rng::for_run(seed, def.name, run);
+                let cfg = (def.draw_cfg)(&mut rng);
+                let out = l2::run(def, &cfg, l2::Chooser::generate(rng));
+                let rep = l1::Replay {
+                    property: "C01".into(),
+                    oracle: "miri".into(),
+                    layer: "L2".into(),
+                    world: scen.clone(),
+                    seed,
+                    run_index: run,
+                    config: cfg,
+                    ops_readable: vec![],
+                    ops: vec![],
+                    message: "undefined behaviour reported by Miri while executing this run".into(),
+                    event_log_hash: format!("{:016x}", out.log_hash),
+                    minimised_from_ops: 0,
+                    runner: "miri".into(),
+                    tape: out.tape,
+                };
+                println!("{}", serde_json::to_string_pretty(&rep).unwrap());
+                return;
+            }
             let def = l1::world_by_name(&world).expect("unknown world");
             let (cfg, mut rng) = l1::draw_run_cfg(def, seed, run, &core::Cfg::new());
             let mut env = core::Env::new();
